@@ -300,6 +300,28 @@ impl Property for C04 {
         }
     }
     fn generate(&self, seed: u64, run: u64, tier: Tier, avoid: &BTreeSet<String>) -> MacCase {
+        // one run in five borrows another property"s generator (same case type), so that this oracle also
+        // judges histories of shapes its own generator does not produce
+        if let Some(c) = super::cross_generate("C04", &["C05", "C06", "C07", "C08", "C09", "C10", "C11", "C12"], seed, run, tier, avoid) {
+            return c;
+        }
+        self.own_generate(seed, run, tier, avoid)
+    }
+    fn execute(&self, case: &MacCase, want_trace: bool) -> Outcome {
+        let mut mon = Mon { region: case.cfg.region };
+        let out = run_case(case, &mut mon, want_trace);
+        Outcome { violation: out.violation, stats: out.stats, trace: out.trace }
+    }
+    fn self_test(&self) -> Result<(), String> {
+        crate::self_test_refs()
+    }
+    fn expected_probes(&self, _tier: Tier) -> Vec<&'static str> {
+        vec!["probe.transmit-probe-ok"]
+    }
+}
+
+impl C04 {
+    pub fn own_generate(&self, seed: u64, run: u64, tier: Tier, avoid: &BTreeSet<String>) -> MacCase {
         // quick tier: a seeded sample of the sweep (every 3rd index) then random; thorough: the whole sweep
         let sweep_run = match tier {
             Tier::Thorough => Some(run),
@@ -317,7 +339,12 @@ impl Property for C04 {
             }
         }
         let mut r = Rng::new(run_seed(seed, "C04", run));
-        let cfg = gen_cfg(&mut r, &CfgProfile { frontends: ALL_FRONTENDS, otaa_pct: 50, boundary_counters_pct: 20, join_bias_pct: 50 });
+        let mut cfg = gen_cfg(&mut r, &CfgProfile { frontends: ALL_FRONTENDS, otaa_pct: 50, boundary_counters_pct: 20, join_bias_pct: 50 });
+        if r.chance(1, 10) {
+            // a device built with a radio buffer smaller than the largest frame
+            cfg.small_buffer = true;
+            cfg.board = 0;
+        }
         let n = r.range(2, 14) as usize;
         let mut ops = Vec::new();
         let gen_txn = |r: &mut Rng, cfg: &WorldCfg, join: bool| {
@@ -382,16 +409,5 @@ impl Property for C04 {
             }
         }
         MacCase { cfg, ops, knob: 0 }
-    }
-    fn execute(&self, case: &MacCase, want_trace: bool) -> Outcome {
-        let mut mon = Mon { region: case.cfg.region };
-        let out = run_case(case, &mut mon, want_trace);
-        Outcome { violation: out.violation, stats: out.stats, trace: out.trace }
-    }
-    fn self_test(&self) -> Result<(), String> {
-        crate::self_test_refs()
-    }
-    fn expected_probes(&self, _tier: Tier) -> Vec<&'static str> {
-        vec!["probe.transmit-probe-ok"]
     }
 }
